@@ -25,7 +25,7 @@ from vf import sched
 from vf import universe as U
 from vf import wire
 from vf.checks.c04 import to_et
-from vf.core import HarnessError, Tally
+from vf.core import HarnessError, Tally, in_fork
 
 LEVEL = "model_checking"
 UTC = datetime.timezone.utc
@@ -196,7 +196,20 @@ def _two_instances():
     return hashlib.sha1(ta + b"|" + tb).hexdigest() + ":" + a.fitid + b.fitid + str(a.memo) + str(b.name), True, ""
 
 
+def _introspect():
+    """what a schema dump / documentation tool does: read the introspection properties of the exported base classes"""
+    import ofxtools.models as M
+    from ofxtools.models.base import Aggregate, ElementList
+
+    out = []
+    for base in (Aggregate, ElementList, M.TrnRq, M.TrnRs, M.SyncRqList, M.SyncRsList, getattr(M, "TranList", Aggregate)):
+        for prop in ("spec", "spec_no_listaggregates", "elements", "subaggregates", "listaggregates", "listelements", "unsupported"):
+            out.append((base.__name__, prop, tuple(getattr(base, prop).keys())))
+    return repr(out), True, ""
+
+
 OPS = {
+    "introspect_base_classes": _introspect,
     "parse_stmt_v1": lambda: (_parse(inputs()["stmt_v1"]), True, ""),
     "parse_stmt_v2": lambda: _parse_tree_convert("stmt_v2"),
     "parse_inv_v2": lambda: _parse_tree_convert("inv_v2"),
@@ -222,7 +235,7 @@ OPS = {
 }
 OPNAMES = list(OPS)
 SMALL = ["dt_convert_fresh_descriptor", "dt_convert_class_descriptor", "dt_unconvert_utc", "dt_unconvert_est_same_instant", "time_unconvert_utc", "time_unconvert_est_same_instant"]
-MEDIUM = ["from_etree_mail", "from_etree_stockinfo", "from_etree_mfinfo_vendor", "two_instances_one_class", "from_etree_seclist"]
+MEDIUM = ["introspect_base_classes", "from_etree_mail", "from_etree_stockinfo", "from_etree_mfinfo_vendor", "two_instances_one_class", "from_etree_seclist"]
 BIG = ["parse_stmt_v1", "parse_inv_v2", "serialize_stmt_v2", "serialize_inv_v1_unclosed_pretty", "parse_profile_v1", "parse_truncated"]
 
 
@@ -277,7 +290,7 @@ def fingerprint():
 # ---------------------------------------------------------------------------------------------
 # histories in forked children
 # ---------------------------------------------------------------------------------------------
-def in_fork(fn):
+def _in_fork_local(fn):
     r, w = os.pipe()
     pid = os.fork()
     if pid == 0:
